@@ -140,6 +140,13 @@ Proof.
   rewrite dropN_app_exact, takeN_app_exact. destruct f; reflexivity.
 Qed.
 
+(* the topic presence table of this tree: exactly the discovery and MPC message types carry a topic *)
+Lemma topic_table_pinned ty : has_topic ty = true <-> ty = msg_type_discovery \/ ty = msg_type_mpc.
+Proof.
+  unfold has_topic, topic_types, msg_type_discovery, msg_type_mpc. cbn [existsb].
+  rewrite orb_false_r, orb_true_iff, !N.eqb_eq. tauto.
+Qed.
+
 (* ---- streams ---------------------------------------------------------------------------- *)
 
 Lemma decode_fuel_frame f e s' fuel :
@@ -252,6 +259,26 @@ Proof.
   assert (lenN (dropN (le32_val b0 b1 b2 b3) (dropN (if has_topic ty then 32 else 0) r)) <= lenN r)
     by (rewrite !lenN_dropN; lia).
   unfold lenN in H. cbn [length]. lia.
+Qed.
+
+(* the length-only decision is exactly readMsg's *)
+Lemma read_msg_decision_spec ty b0 b1 b2 b3 r :
+  match read_msg (ty :: b0 :: b1 :: b2 :: b3 :: r) with
+  | Ok (f, rest) => read_msg_decision ty b0 b1 b2 b3 (lenN r) = Ok (f_ty f, lenN (f_topic f), lenN (f_data f)) /\
+                    lenN rest = lenN r - lenN (f_topic f) - lenN (f_data f)
+  | Err => read_msg_decision ty b0 b1 b2 b3 (lenN r) = Err
+  | Panic => False
+  end.
+Proof.
+  unfold read_msg, read_msg_decision.
+  destruct (max_buff_len <? _); [reflexivity|]. cbv zeta.
+  generalize (if has_topic ty then 32 else 0). intros tl.
+  destruct (lenN r <? tl) eqn:E2; [reflexivity|]. rewrite lenN_dropN.
+  destruct (lenN r - tl <? le32_val b0 b1 b2 b3) eqn:E3; [reflexivity|].
+  apply N.ltb_ge in E2, E3. cbn [f_ty f_topic f_data]. rewrite !lenN_takeN, !lenN_dropN.
+  replace (N.min tl (lenN r)) with tl by lia.
+  replace (N.min (le32_val b0 b1 b2 b3) (lenN r - tl)) with (le32_val b0 b1 b2 b3) by lia.
+  split; [reflexivity|lia].
 Qed.
 
 (* ---- truncation ------------------------------------------------------------------------------ *)
